@@ -269,7 +269,39 @@ pub fn twin_datas() -> Vec<Value> {
     ]
 }
 
+/// Capacity alphabet: single calls that use more distinct paths / numeric strings than any bounded
+/// per-thread table holds (70, 300), and small calls that use the first and last of them again.
+pub fn capacity_rules() -> Vec<Value> {
+    let lookups = |n: usize| -> Vec<Value> { (0..n).map(|i| json!({"var": format!("k{}.v", i)})).collect() };
+    let strs = |n: usize| -> Vec<Value> { (0..n).map(|i| json!(format!("{}.5", i))).collect() };
+    vec![
+        json!({"merge": lookups(70)}),
+        json!({"merge": lookups(300)}),
+        json!({"var": "k0.v"}),
+        json!({"var": "k1.v"}),
+        json!({"var": "k69.v"}),
+        json!({"var": ["k299.v", "dflt"]}),
+        json!({"missing": ["k0.v", "k0.zz", "k299.v"]}),
+        json!({"+": strs(70)}),
+        json!({"max": strs(300)}),
+        json!({"+": ["0.5", 1]}),
+        json!({"==": ["0.5", 0.5]}),
+        json!({"<": ["299.5", "3"]}),
+        json!({"map": [{"var": "rows"}, {"var": [{"cat": ["k", {"var": ""}, ".v"]}]}]}),
+    ]
+}
+
+pub fn capacity_datas() -> Vec<Value> {
+    let mut m = serde_json::Map::new();
+    for i in 0..300 {
+        m.insert(format!("k{}", i), json!({"v": i}));
+    }
+    m.insert("rows".into(), json!([0, 1, 2]));
+    vec![Value::Object(m)]
+}
+
 pub fn run(ctx: &mut Ctx) {
+    run_alphabet(ctx, "capacity", capacity_rules(), capacity_datas(), 13, 1);
     run_alphabet(ctx, "twins", rules(), twin_datas(), 40, 2);
     run_alphabet(ctx, "lexer", lexer_rules(), lexer_datas(), 24, 2);
     run_alphabet(ctx, "main", rules(), datas(), 40, 3);
@@ -394,7 +426,7 @@ fn run_alphabet(ctx: &mut Ctx, tag: &str, rules: Vec<Value>, datas: Vec<Value>, 
     for i in 0..n.min(5_000_000) {
         ctx.nontrivial.insert(crate::ctx::hash_str(&format!("hist-{}-{}-{}", tag, ctx.shard, i)));
     }
-    ctx.sample_force(json!({"history": [{"rule": ex.rules[0], "data": ex.datas[0]}, {"rule": ex.rules[0], "data": ex.datas[1]}], "oracle": "each call == its isolated outcome (value, Err-ness, log lines, inputs intact)"}));
+    ctx.sample_force(json!({"history": [{"rule": ex.rules[0], "data": ex.datas[0]}, {"rule": ex.rules[0], "data": ex.datas[ex.datas.len() - 1]}], "oracle": "each call == its isolated outcome (value, Err-ness, log lines, inputs intact)"}));
 }
 
 pub fn add_extra(ctx: &mut Ctx, key: &str, n: u64) {
